@@ -545,7 +545,8 @@ def run_check(prop, tier, seed, obligations, ctx, level, functions, assumptions,
             path = os.path.join(rdir, s["name"] + ".json")
             with open(path, "w") as f:
                 json.dump({"obligation": s["name"], "property": prop, "verifier_output_tail": s["detail"]}, f, indent=1)
-            violations.append("VIOLATION property=%s replay=%s obligation=%s no-failing-input-found" % (prop, path, s["name"]))
+            violations.append("VIOLATION property=%s replay=%s obligation=%s%s" % (
+                prop, path, s["name"], "" if s.get("reproduced") else " no-failing-input-found"))
     wall = time.time() - t0
     # ---------------- evidence
     proof = [r for r in results if r.obl.mode == "proof"]
